@@ -308,23 +308,32 @@ structure Tweak (s s' : State) (p : FId) (fp fp' : Fiber) : Prop where
   st : fp'.status = fp.status
   msk : fp'.mask = fp.mask
   pe : fp'.pending = fp.pending
+  rt : fp'.root = fp.root
+  other : ∀ q fq, q ≠ p → s.fiber? q = some fq → s'.fiber? q = some fq
+  back : ∀ q fq, q ≠ p → s'.fiber? q = some fq → s.fiber? q = some fq ∨ fq.child = none
 
 theorem Tweak.refl {s : State} {p : FId} {fp : Fiber} (h : s.fiber? p = some fp) : Tweak s s p fp fp :=
-  ⟨Mono.refl s, id, fun _ h => h, rfl, h, rfl, rfl, rfl⟩
+  ⟨Mono.refl s, id, fun _ h => h, rfl, h, rfl, rfl, rfl, rfl, fun _ _ _ h => h, fun _ _ _ h => Or.inl h⟩
 
 theorem Tweak.trans {a b c : State} {p : FId} {f0 f1 f2 : Fiber} (h1 : Tweak a b p f0 f1) (h2 : Tweak b c p f1 f2) : Tweak a c p f0 f2 :=
   ⟨h1.mono.trans h2.mono, fun h => h2.pend (h1.pend h), fun k h => h2.stk k (h1.stk k h), h2.stack.trans h1.stack, h2.cur,
-   h2.st.trans h1.st, h2.msk.trans h1.msk, h2.pe.trans h1.pe⟩
+   h2.st.trans h1.st, h2.msk.trans h1.msk, h2.pe.trans h1.pe, h2.rt.trans h1.rt,
+   fun q fq hq h => h2.other q fq hq (h1.other q fq hq h),
+   fun q fq hq h => (h2.back q fq hq h).elim (fun h' => h1.back q fq hq h') Or.inr⟩
 
 theorem Tweak.of_fibers_eq {s s' : State} {p : FId} {fp : Fiber} (h : s.fiber? p = some fp) (hf : s'.fibers = s.fibers)
     (hs : s'.stack = s.stack) : Tweak s s' p fp fp :=
   ⟨Mono.of_fibers_eq hf, fun hp => hp.of_fibers_eq hf, fun _ hk => hk.of_fibers_eq hf, hs,
-   by unfold State.fiber? at *; rw [hf]; exact h, rfl, rfl, rfl⟩
+   by unfold State.fiber? at *; rw [hf]; exact h, rfl, rfl, rfl, rfl,
+   fun q fq _ hq => by unfold State.fiber? at *; rw [hf]; exact hq,
+   fun q fq _ hq => Or.inl (by unfold State.fiber? at *; rw [← hf]; exact hq)⟩
 
 theorem Tweak.setFiber {s : State} {p : FId} {fp : Fiber} (x : Fiber) (h : s.fiber? p = some fp)
-    (hst : x.status = fp.status) (hm : x.mask = fp.mask) (hpe : x.pending = fp.pending) : Tweak s (s.setFiber p x) p fp x := by
+    (hst : x.status = fp.status) (hm : x.mask = fp.mask) (hpe : x.pending = fp.pending) (hrt : x.root = fp.root) :
+    Tweak s (s.setFiber p x) p fp x := by
   refine ⟨Mono.setFiber x h (hst ▸ Fwd.refl _) hm, fun hp => hp.setFiber p x (fun sg hx => hp p fp sg h (hpe ▸ hx)), ?_, rfl,
-    fiber?_setFiber_eq x h, hst, hm, hpe⟩
+    fiber?_setFiber_eq x h, hst, hm, hpe, hrt, fun q fq hq hh => by rw [fiber?_setFiber_ne _ _ _ _ hq]; exact hh,
+    fun q fq hq hh => Or.inl (by rw [fiber?_setFiber_ne _ _ _ _ hq] at hh; exact hh)⟩
   intro stk hk
   refine ⟨hk.1, fun q hq => ?_⟩
   obtain ⟨fq, h1, h2⟩ := hk.2 q hq
@@ -340,7 +349,7 @@ theorem ensureEnv_tweak {s : State} {p : FId} {fp : Fiber} (h : s.fiber? p = som
   split
   · exact Tweak.refl h
   · exact (Tweak.of_fibers_eq (s' := { s with denvs := s.denvs ++ [{ proto := none, tbl := [] }] }) h rfl rfl).trans
-      (Tweak.setFiber _ (by exact h) rfl rfl rfl)
+      (Tweak.setFiber _ (by exact h) rfl rfl rfl rfl)
 
 theorem newEnvStep_tweak {p : FId} {acc : State × Fiber × Option Nat} (c : Nat) (h : acc.1.fiber? p = some acc.2.1) :
     Tweak acc.1 (newEnvStep p acc c).1 p acc.2.1 (newEnvStep p acc c).2.1 := by
@@ -402,10 +411,10 @@ theorem refuse_after_tweak {s s' : State} {p : FId} {fp fp' : Fiber} (t : Tweak 
 
 /-- the instruction enters another fiber: `fiber->child = g; janet_continue_no_check(g, v)` -/
 theorem Ctx.enter {s p fp rest} (c : Ctx s p fp rest) (x : Fiber) (g : FId) (fg : Fiber) (b : Bool) (fuel : Nat) (v : Val)
-    (hst : x.status = fp.status) (hm : x.mask = fp.mask) (hpe : x.pending = fp.pending)
+    (hst : x.status = fp.status) (hm : x.mask = fp.mask) (hpe : x.pending = fp.pending) (hrt : x.root = fp.root)
     (hg : s.fiber? g = some fg) (hchk : checkCanResume fg b = none) :
     Res s (contNoCheck fuel (s.setFiber p x) (p :: rest) g v) := by
-  have t := Tweak.setFiber x c.hfp hst hm hpe
+  have t := Tweak.setFiber x c.hfp hst hm hpe hrt
   have c' := c.tweak t
   refine Res.trans t.mono (contNoCheck_res _ _ _ _ _ c'.hpo c'.hs ?_)
   refine refuse_after_tweak t c.hfp (fun cur h => ?_) (fun q hq => fiber?_setFiber_ne _ _ _ _ hq)
@@ -426,10 +435,10 @@ theorem cancelSignal_lt : cancelSignal < stNew := by decide
 /-- `cancel`: additionally mark the innermost descendant `d` with the pending signal, then enter -/
 theorem Ctx.enterMarked {s p fp rest} (c : Ctx s p fp rest) (x : Fiber) (g : FId) (fg : Fiber) (b : Bool) (fuel : Nat) (v : Val)
     (d : FId) (fd : Fiber)
-    (hst : x.status = fp.status) (hm : x.mask = fp.mask) (hpe : x.pending = fp.pending)
+    (hst : x.status = fp.status) (hm : x.mask = fp.mask) (hpe : x.pending = fp.pending) (hrt : x.root = fp.root)
     (hg : s.fiber? g = some fg) (hchk : checkCanResume fg b = none) (hd : (s.setFiber p x).fiber? d = some fd) :
     Res s (contNoCheck fuel ((s.setFiber p x).setFiber d { fd with pending := some cancelSignal }) (p :: rest) g v) := by
-  have t := Tweak.setFiber x c.hfp hst hm hpe
+  have t := Tweak.setFiber x c.hfp hst hm hpe hrt
   have c' := c.tweak t
   have h1 : ∀ cur, (s.setFiber p x).fiber? g = some cur → refuseResume.contains cur.status = false := by
     refine refuse_after_tweak t c.hfp (fun cur h => ?_) (fun q hq => fiber?_setFiber_ne _ _ _ _ hq)
@@ -463,15 +472,15 @@ theorem execPrim_res {s : State} {p : FId} {fp : Fiber} {rest : List FId} (c : C
     | exact c.raise _ _ rfl rfl (by simp only [userBase, userMax, stNew, propagateMaxStatus] at *; omega)
     | exact panic_res _ c.hfp c.alive rfl c.hpo c.pp c.hs.tail.1 c.hs.tail.2
     | exact Res.stop _ c.hpo _
-    | exact c.enter _ _ _ _ _ _ rfl rfl rfl (by assumption) (by assumption)
-    | exact c.enterMarked _ _ _ _ _ _ _ _ rfl rfl rfl (by assumption) (by assumption) (by assumption)
+    | exact c.enter _ _ _ _ _ _ rfl rfl rfl rfl (by assumption) (by assumption)
+    | exact c.enterMarked _ _ _ _ _ _ _ _ rfl rfl rfl rfl (by assumption) (by assumption) (by assumption)
     | (refine Res.trans ?_ (Res.stop _ ?_ _)
-       · exact (Tweak.setFiber _ c.hfp (by rfl) (by rfl) (by rfl)).mono
-       · exact (Tweak.setFiber _ c.hfp (by rfl) (by rfl) (by rfl)).pend c.hpo)
+       · exact (Tweak.setFiber _ c.hfp (by rfl) (by rfl) (by rfl) (by rfl)).mono
+       · exact (Tweak.setFiber _ c.hfp (by rfl) (by rfl) (by rfl) (by rfl)).pend c.hpo)
     | (refine Res.trans ?_ (unwind_res _ _ _ _ _ ?_ ?_ sigError_lt)
-       · exact (Tweak.setFiber _ c.hfp (by rfl) (by rfl) (by rfl)).mono
-       · exact (Tweak.setFiber _ c.hfp (by rfl) (by rfl) (by rfl)).pend c.hpo
-       · exact (Tweak.setFiber _ c.hfp (by rfl) (by rfl) (by rfl)).stk _ c.hs)
+       · exact (Tweak.setFiber _ c.hfp (by rfl) (by rfl) (by rfl) (by rfl)).mono
+       · exact (Tweak.setFiber _ c.hfp (by rfl) (by rfl) (by rfl) (by rfl)).pend c.hpo
+       · exact (Tweak.setFiber _ c.hfp (by rfl) (by rfl) (by rfl) (by rfl)).stk _ c.hs)
     | exact Res.trans (ensureEnv_tweak c.hfp).mono (Res.stop _ ((ensureEnv_tweak c.hfp).pend c.hpo) _)
     | (have t := (ensureEnv_tweak c.hfp)
        refine Res.trans (b := _) ?_ (Ctx.bind (fp := (ensureEnv s p fp).2.1) (rest := rest) ?_ _ _ _ rfl rfl rfl)
@@ -481,7 +490,14 @@ theorem execPrim_res {s : State} {p : FId} {fp : Fiber} {rest : List FId} (c : C
 theorem Ctx.res {s s' p fp fp' rest} (c : Ctx s p fp rest) (t : Tweak s s' p fp fp') : Res s s' :=
   ⟨t.mono, t.pend c.hpo, fun _ => by rw [t.stack, c.hstk]; exact t.stk _ c.hs⟩
 
-theorem Tweak.append {s : State} {p : FId} {fp : Fiber} (nf : Fiber) (h : s.fiber? p = some fp) (hnp : nf.pending = none) :
+/-- the part of `Tweak.setFiber` that does not need the root flag -/
+theorem Tweak.setFiber' {s : State} {p : FId} {fp : Fiber} (x : Fiber) (h : s.fiber? p = some fp)
+    (hst : x.status = fp.status) (hm : x.mask = fp.mask) (hpe : x.pending = fp.pending) :
+    Tweak s (s.setFiber p { x with root := fp.root }) p fp { x with root := fp.root } :=
+  Tweak.setFiber _ h hst hm hpe rfl
+
+theorem Tweak.append {s : State} {p : FId} {fp : Fiber} (nf : Fiber) (h : s.fiber? p = some fp) (hnp : nf.pending = none)
+    (hnc : nf.child = none) :
     Tweak s { s with fibers := s.fibers ++ [nf] } p fp fp := by
   have key : ∀ g fg, s.fiber? g = some fg → ({ s with fibers := s.fibers ++ [nf] } : State).fiber? g = some fg := by
     intro g fg hg
@@ -489,7 +505,7 @@ theorem Tweak.append {s : State} {p : FId} {fp : Fiber} (nf : Fiber) (h : s.fibe
     unfold State.fiber? at *
     simp only
     rw [List.getElem?_append_left hl]; exact hg
-  refine ⟨fun g fg hg => ⟨fg, key g fg hg, Fwd.refl _, rfl⟩, ?_, ?_, rfl, key p fp h, rfl, rfl, rfl⟩
+  refine ⟨fun g fg hg => ⟨fg, key g fg hg, Fwd.refl _, rfl⟩, ?_, ?_, rfl, key p fp h, rfl, rfl, rfl, rfl, fun q fq _ hq => key q fq hq, ?_⟩
   · intro hp g fg sg hg hpe
     by_cases hl : g < s.fibers.length
     · refine hp g fg sg ?_ hpe
@@ -504,6 +520,19 @@ theorem Tweak.append {s : State} {p : FId} {fp : Fiber} (nf : Fiber) (h : s.fibe
       | succ n => rw [hidx] at hg; simp at hg
   · intro stk hk
     exact ⟨hk.1, fun q hq => by obtain ⟨fq, h1, h2⟩ := hk.2 q hq; exact ⟨fq, key q fq h1, h2⟩⟩
+  · intro q fq _ hq
+    by_cases hl : q < s.fibers.length
+    · left
+      unfold State.fiber? at *
+      simp only at hq
+      rw [List.getElem?_append_left hl] at hq; exact hq
+    · right
+      unfold State.fiber? at hq
+      simp only at hq
+      rw [List.getElem?_append_right (Nat.le_of_not_lt hl)] at hq
+      cases hidx : q - s.fibers.length with
+      | zero => rw [hidx] at hq; simp at hq; subst hq; exact hnc
+      | succ n => rw [hidx] at hq; simp at hq
 
 theorem execNew_res {s : State} {p : FId} {fp : Fiber} {rest : List FId} (c : Ctx s p fp rest) (l : Nat) (body : Tm) (flags : List Nat) (k : Tm) :
     Res s (execNew s p fp l body flags k) := by
@@ -512,7 +541,7 @@ theorem execNew_res {s : State} {p : FId} {fp : Fiber} {rest : List FId} (c : Ct
   have t := foldl_newEnvStep_tweak (p := p) flags (s, fp, none) c.hfp
   have t2 := t.trans (Tweak.append (s := (flags.foldl (newEnvStep p) (s, fp, none)).1)
     { status := stNew, mask := maskOfFlags flags, ctl := .run body, env := (flags.foldl (newEnvStep p) (s, fp, none)).2.1.env,
-      denv := (flags.foldl (newEnvStep p) (s, fp, none)).2.2 } t.cur rfl)
+      denv := (flags.foldl (newEnvStep p) (s, fp, none)).2.2 } t.cur rfl rfl)
   exact Res.trans t2.mono ((c.tweak t2).bind _ _ _ rfl rfl rfl)
 
 theorem execLoopNext_res {s : State} {p : FId} {fp : Fiber} {rest : List FId} (c : Ctx s p fp rest) (l : Nat) (f : Atom) (body k : Tm) :
@@ -524,11 +553,11 @@ theorem execLoopNext_res {s : State} {p : FId} {fp : Fiber} {rest : List FId} (c
     | exact c.bind _ _ _ rfl rfl rfl
     | exact panic_res _ c.hfp c.alive rfl c.hpo c.pp c.hs.tail.1 c.hs.tail.2
     | exact Res.stop _ c.hpo _
-    | exact c.enter _ _ _ _ _ _ rfl rfl rfl (by assumption) (by assumption)
+    | exact c.enter _ _ _ _ _ _ rfl rfl rfl rfl (by assumption) (by assumption)
     | (refine Res.trans ?_ (unwind_res _ _ _ _ _ ?_ ?_ sigError_lt)
-       · exact (Tweak.setFiber _ c.hfp (by rfl) (by rfl) (by rfl)).mono
-       · exact (Tweak.setFiber _ c.hfp (by rfl) (by rfl) (by rfl)).pend c.hpo
-       · exact (Tweak.setFiber _ c.hfp (by rfl) (by rfl) (by rfl)).stk _ c.hs)
+       · exact (Tweak.setFiber _ c.hfp (by rfl) (by rfl) (by rfl) (by rfl)).mono
+       · exact (Tweak.setFiber _ c.hfp (by rfl) (by rfl) (by rfl) (by rfl)).pend c.hpo
+       · exact (Tweak.setFiber _ c.hfp (by rfl) (by rfl) (by rfl) (by rfl)).stk _ c.hs)
 
 theorem sigOk_lt : sigOk < stNew := by decide
 
@@ -554,19 +583,19 @@ theorem step_res (s : State) (hinv : Inv s) : Res s (step s) := by
             simp only []
             split
             · exact c.raise _ _ rfl rfl sigOk_lt
-            · exact Res.log _ _ _ (c.res (Tweak.setFiber _ c.hfp (by rfl) (by rfl) (by rfl)))
-            · exact Res.log _ _ _ (c.res (Tweak.setFiber _ c.hfp (by rfl) (by rfl) (by rfl)))
+            · exact Res.log _ _ _ (c.res (Tweak.setFiber _ c.hfp (by rfl) (by rfl) (by rfl) (by rfl)))
+            · exact Res.log _ _ _ (c.res (Tweak.setFiber _ c.hfp (by rfl) (by rfl) (by rfl) (by rfl)))
             · rename_i env l f body k ks _
-              have t := Tweak.setFiber (s := s) (p := p) (fp := fp) { fp with env := env, kont := ks } c.hfp rfl rfl rfl
+              have t := Tweak.setFiber (s := s) (p := p) (fp := fp) { fp with env := env, kont := ks } c.hfp rfl rfl rfl rfl
               exact Res.trans t.mono (execLoopNext_res (c.tweak t) _ _ _ _)
-            · exact c.res (Tweak.setFiber _ c.hfp (by rfl) (by rfl) (by rfl))
-          · exact c.res (Tweak.setFiber _ c.hfp (by rfl) (by rfl) (by rfl))
+            · exact c.res (Tweak.setFiber _ c.hfp (by rfl) (by rfl) (by rfl) (by rfl))
+          · exact c.res (Tweak.setFiber _ c.hfp (by rfl) (by rfl) (by rfl) (by rfl))
           · exact execPrim_res c _ _ _
           · exact execNew_res c _ _ _ _
-          · exact c.res (Tweak.setFiber _ c.hfp (by rfl) (by rfl) (by rfl))
-          · exact c.res (Tweak.setFiber _ c.hfp (by rfl) (by rfl) (by rfl))
+          · exact c.res (Tweak.setFiber _ c.hfp (by rfl) (by rfl) (by rfl) (by rfl))
+          · exact c.res (Tweak.setFiber _ c.hfp (by rfl) (by rfl) (by rfl) (by rfl))
           · exact execLoopNext_res c _ _ _ _
-          · exact c.res (Tweak.setFiber _ c.hfp (by rfl) (by rfl) (by rfl))
+          · exact c.res (Tweak.setFiber _ c.hfp (by rfl) (by rfl) (by rfl) (by rfl))
 
 theorem run_res : ∀ (n : Nat) (s : State), Inv s → Res s (run n s) := by
   intro n
